@@ -9,6 +9,7 @@ matrix and its condition number, n!, the documented method order) is computed he
 from math import factorial
 
 import mpmath
+import math
 import numpy as np
 from hypothesis import strategies as st
 
@@ -233,6 +234,17 @@ class C06(Prop):
                                        C_EXACT * EPS * kappa, kappa),
                                     k=k, library=float(E[k]), oracle=target, kappa=kappa, rule=w,
                                     sign_flip=bool(k == n and abs(E[k] + target) < abs(E[k] - target)))
+
+        else:
+            # numerically singular moment systems (kappa > 1e12): eps*kappa is no bound any more; what
+            # is tracked (and asserted with the calibrated constant R_SING) is the error of each moment
+            # relative to sum_j |w_j D_kj| itself
+            for k in range(n + mo):
+                if k not in D or scale_rel[k] == 0:
+                    continue
+                target = factorial(n) if k == n else 0
+                rel = float(abs(E[k] - target) / scale_rel[k])
+                ctx.track('moment_err/sum|w D| [kappa 1e%d..]' % int(min(math.floor(math.log10(kappa)), 20)) if kappa < float('inf') else 'moment_err/sum|w D| [kappa inf]', rel, dict(summary, k=k, kappa=kappa, m=m))
 
         # ---- (ii) only the powers the Richardson stage removes survive ----------------------
         for k in range(n + mo, kmax + 1):
